@@ -586,7 +586,10 @@ class Name:
                     strio.write(struct.pack("!H", 0xC000 | compDict[name]))
                     return
                 else:
-                    compDict[name] = strio.tell() + Message.headerSize
+                    offset = strio.tell() + Message.headerSize
+                    # A compression pointer has only 14 bits for the offset.
+                    if offset < 0x4000:
+                        compDict[name] = offset
             ind = name.find(b".")
             if ind > 0:
                 label, name = name[:ind], name[ind + 1 :]
